@@ -333,6 +333,9 @@ class GuardStates:
         if node.kind != "stmt" or not isinstance(a, ast.Assign) or len(a.targets) != 1:
             return None
         t, v = a.targets[0], a.value
+        if _path(t) is not None and isinstance(v, (ast.JoinedStr, ast.List, ast.Dict, ast.Tuple, ast.Set, ast.ListComp, ast.DictComp, ast.SetComp)):
+            # a freshly built string / container is not None
+            return self._fact(ast.parse(f"{_path(t)} is None", mode="eval").body, False)
         if _path(t) is None or not isinstance(v, ast.Constant):
             return None
         if v.value is None:
